@@ -15,7 +15,7 @@ from dataclasses import dataclass, field, replace
 from typing import Any
 
 from .model import Cls, Func, Model, Module, dotted, unparse
-from .terms import EMPTY, FALSE, NONE, TRUE, Term, alpha_normalise, alpha_normalise_bound, const, has_unknown, is_term, subst, unknown, var
+from .terms import EMPTY, FALSE, NONE, TRUE, Term, alpha_normalise, alpha_normalise_bound, bound_vars, const, has_unknown, is_term, subst, unknown, var
 
 SET_METHODS = {
     "union": "union",
@@ -101,6 +101,7 @@ class Evaluator:
         self.prim_methods = set(prim_methods or ())  # bare method names never inlined (receiver kept)
         self.opaque_classes = set(opaque_classes or ())
         self.max_depth = max_depth
+        self.recurse_as: set = set()  # calls to these are recursion points (used when a reference definition calls the routine it defines)
         self.max_paths = max_paths
         self.types: dict[Term, Any] = {}
         self._fresh = itertools.count()
@@ -623,6 +624,16 @@ class Evaluator:
             t = t[2][0]
         if t[0] == "accum" and t[1] == "concat" and t[2] == ("listlit", ()) and t[3][0] == "listlit" and len(t[3][1]) == 1 and t[5] == ("const", False):
             return t[3][1][0], t[4]
+        if t[0] == "comp" and t[1] in ("list", "gen") and len(t[3]) >= 2 and not (isinstance(t[2], tuple) and t[2] and t[2][0] == "%payload"):
+            return t[2], t[3]
+        if t[0] == "call" and isinstance(t[1], str) and t[1].split(".")[-1] == "product" and not t[3] and len(t[2]) >= 2:
+            # for a, b in product(A, B)  =  for a in A: for b in B
+            vs = tuple(("var", f"%prod{i}_") for i in range(len(t[2])))
+            for v, src in zip(vs, t[2]):
+                et = self.elem_type(src) if hasattr(self, "elem_type") else None
+                if et is not None:
+                    self.set_type(v, et)
+            return ("tuplelit", vs), tuple((v, src, ()) for v, src in zip(vs, t[2]))
         return None
 
     def _exec_for_fused(self, st: ast.For, s0: State, fused, func: Func):
@@ -682,7 +693,7 @@ class Evaluator:
                         # attach the body's own conditions to the innermost generator
                         lp, lsrc, lconds = g[-1]
                         g[-1] = (lp, lsrc, tuple(lconds) + tuple(extra))
-                        res = ("accum", kind, res, payload, tuple(g) + tuple(inner), const(bool(breaks)))
+                        res = _mk_accum(kind, res, payload, tuple(g) + tuple(inner), bool(breaks))
             if not ok:
                 after.env[name] = unknown(f"loop-carried:{name}", line)
                 self.unknowns.append((func.qname, line, f"loop-carried:{name}"))
@@ -809,7 +820,7 @@ class Evaluator:
                 pieces.append((kind, payload, extra, inner))
         res = oldv
         for kind, payload, extra, inner in pieces:
-            res = ("accum", kind, res, payload, ((pat, it, tuple(extra)),) + tuple(inner), const(bool(has_break)))
+            res = _mk_accum(kind, res, payload, ((pat, it, tuple(extra)),) + tuple(inner), bool(has_break))
         return res
 
     def _decompose(self, oldv: Term, newv: Term, depth: int = 0):
@@ -1502,6 +1513,13 @@ class Evaluator:
             pat = self._bind_target(g.target, s)
             self._type_bound(pat, it)
             conds = tuple(self.as_cond(self.eval1(c, s, func)) for c in g.ifs)
+            if (it[0] == "call" and isinstance(it[1], str) and it[1].split(".")[-1] == "product" and not it[3] and pat[0] == "tuplelit"
+                    and len(pat[1]) == len(it[2]) >= 2 and all(x[0] == "var" for x in pat[1])):
+                # for a, b in product(A, B)  =  for a in A for b in B
+                for x, src in zip(pat[1][:-1], it[2][:-1]):
+                    gens.append((x, src, ()))
+                gens.append((pat[1][-1], it[2][-1], conds))
+                continue
             gens.append((pat, it, conds))
         if kind == "dict":
             elt = ("kv", self.eval1(e.key, s, func), self.eval1(e.value, s, func))
@@ -1533,9 +1551,11 @@ class Evaluator:
         if kind != "dict" and len(gens) == 1 and gens[0][0][0] == "var":
             pat, it, conds = gens[0]
             src = it
-            while src[0] == "call" and src[1] in ("list", "tuple", "iter") and len(src[2]) == 1 and not src[3]:
+            strip = ("list", "tuple", "iter", "set", "frozenset") if kind == "set" else ("list", "tuple", "iter")
+            while src[0] == "call" and src[1] in strip and len(src[2]) == 1 and not src[3]:
                 src = src[2][0]
-            if src[0] == "comp" and src[1] in ("list", "gen") and not (isinstance(src[2], tuple) and src[2] and src[2][0] == "%payload"):
+            # a set of images does not care whether the source was de-duplicated first
+            if src[0] == "comp" and (src[1] in ("list", "gen") or (kind == "set" and src[1] == "set")) and not (isinstance(src[2], tuple) and src[2] and src[2][0] == "%payload"):
                 # (f(m) for m in [g(d) for d in D] if c(m))  =  (f(g(d)) for d in D if c(g(d)))
                 m = {pat: src[2]}
                 inner = list(src[3])
@@ -1749,7 +1769,7 @@ class Evaluator:
 
     def inline(self, f: Func, args, kwargs, state: State, func: Func, line: int, self_term: Term | None = None,
                closure: dict | None = None):
-        if f.qname in self.stack and closure is None:
+        if (f.qname in self.stack or f.qname in self.recurse_as) and closure is None:
             t = ("recurse", f.qname, tuple(args), tuple(sorted(kwargs.items())))
             return [(state, t)]
         if len(self.stack) >= self.max_depth:
@@ -2182,8 +2202,11 @@ class Evaluator:
         # functional reading of the common set/list mutators
         if name == "add" and len(args) == 1:
             return self.mk_set("union", cur if cur[0] != "empty" else EMPTY, ("setlit", (args[0],)))
-        if name == "update" and len(args) == 1 and (self.is_setlike(cur) or cur[0] in ("empty", "union", "setof", "setlit", "diff", "inter")):
-            return self.mk_set("union", cur, args[0] if args[0][0] in ("union", "inter", "diff", "setof", "setlit", "comp") else ("setof", args[0]))
+        if name == "update" and len(args) >= 1 and not kwargs and (self.is_setlike(cur) or cur[0] in ("empty", "union", "setof", "setlit", "diff", "inter")):
+            out = cur
+            for a in args:  # s.update(a, b) = s |= a | b
+                out = self.mk_set("union", out, a if a[0] in ("union", "inter", "diff", "setof", "setlit", "comp") else ("setof", a))
+            return out
         if name == "append" and len(args) == 1:
             return self._concat(cur, ("listlit", (args[0],)))
         if name == "extend" and len(args) == 1:
@@ -2315,9 +2338,18 @@ def _neg_alts(c: Term, limit: int) -> list[list[Term]]:
     return [[_neg(c)]]
 
 
+def _mk_accum(kind: str, res: Term, payload: Term, gens: tuple, has_break: bool) -> Term:
+    return ("accum", kind, res, payload, tuple(gens), const(bool(has_break)))
+
+
 def _first_ite(t):
+    bv = None
     for s_ in _subterms(t):
         if s_[0] == "ite":
+            if bv is None:
+                bv = bound_vars(t)
+            if bv and any(x in bv for x in _subterms(s_[1]) if x[0] == "var"):
+                continue  # the test depends on a variable bound inside t: not a case distinction of the whole path
             return s_
     return None
 
